@@ -29,6 +29,9 @@ type Script struct {
 	PartDelay    time.Duration // wait after each flushed part (response is "mid-body")
 	Arrived      chan struct{} // signalled (non-blocking) when the request has arrived
 	Trailer      []HeaderLine  // sent as HTTP trailers after the body (forces chunked framing)
+	// NoContentType: the response carries no Content-Type at all (net/http would otherwise
+	// sniff one from the first bytes of the body)
+	NoContentType bool
 }
 
 // Seen is what the backend received.
@@ -212,6 +215,9 @@ func (b *Backend) serve(w http.ResponseWriter, r *http.Request) {
 		w.Header().Set("Link", "</style.css>; rel=preload")
 		w.WriteHeader(sc.Interim)
 		w.Header().Del("Link")
+	}
+	if sc.NoContentType {
+		w.Header()["Content-Type"] = nil
 	}
 	for _, h := range sc.Header {
 		w.Header().Add(h.Name, h.Value)
